@@ -185,6 +185,21 @@ func usesOfOwned(v ssa.Value) []ownUse {
 							uses = append(uses, ownUse{kind: "wrapped", in: x, field: fieldName(fa.X.Type(), fa.Field), strct: al})
 							continue
 						}
+						// a field of a struct embedded (by value) in the wrapper: &w.innerCloser.inner
+						fld := fieldName(fa.X.Type(), fa.Field)
+						base := fa.X
+						for d := 0; d < 3; d++ {
+							inner, ok := base.(*ssa.FieldAddr)
+							if !ok {
+								break
+							}
+							fld = fieldName(inner.X.Type(), inner.Field) + "." + fld
+							base = inner.X
+						}
+						if al, ok := base.(*ssa.Alloc); ok {
+							uses = append(uses, ownUse{kind: "wrapped", in: x, field: fld, strct: al})
+							continue
+						}
 					}
 					if al, ok := x.Addr.(*ssa.Alloc); ok {
 						// spilled into a cell (captured by a closure): follow the cell
